@@ -185,7 +185,7 @@ def tight_case(draw):
     names = ['x', 'y'][:n]
     tol = draw(st.sampled_from(['1e-2', '1e-3', '1e-4', '5e-2', '1e-5']))
     T = float(tol)
-    kind = draw(st.sampled_from(['flip', 'flip', 'slow-decay', 'drift', 'rotation', 'stable']))
+    kind = draw(st.sampled_from(['flip', 'flip', 'slow-decay', 'drift', 'rotation', 'stable', 'trend']))
     A = [[0] * n for _ in range(n)]
     b = [0] * n
     if kind == 'flip':
@@ -206,6 +206,12 @@ def tight_case(draw):
     if kind == 'drift':
         b[0] = draw(st.sampled_from([1, -1]))
         drift = repr(T * u * b[0])
+    trend = None
+    if kind == 'trend':
+        # x = g + c*t with no feedback: every backward change is exactly |c| (t = k runs -T..0 in the search),
+        # and the next period moves by |c| again
+        A[0] = [0] * n
+        trend = repr(T * u)
     eqs = []
     for i, nm in enumerate(names):
         parts = []
@@ -214,6 +220,9 @@ def tight_case(draw):
                 parts.append(blocks.fmt_coef_term(A[i][j], 'LAG_' + names[j], 0))
         if kind == 'drift' and i == 0:
             parts.append(('+', '(' + drift + ')'))
+        if trend is not None and i == 0:
+            parts.append(('+', draw(st.sampled_from(['3.0', '-7.5', '100.0']))))
+            parts.append(('+', trend + draw(st.sampled_from(['*t', '*k']))))
         eqs.append([nm, blocks.join_signed(parts, ' ') if parts else '0.0', 'sim'])
     ss_T = draw(st.sampled_from([50, 51, 20, 5, 200, 7]))
     norm = max([sum(abs(v) for v in row) / 100.0 for row in A] + [1.0])
